@@ -237,7 +237,7 @@ def run(ctx):
     ctx.assumptions += ["ArgsConform: arguments conform to the grammar (optional operands as a trailing run, parameters only on the last parameterised operand of a call, literal widths consistent with tracked types, OpSwitch selectors untracked); histories complete; no begin_block_no_label (known finding)",
                         "C06_roundtrip / C06_scope: for complete plain histories (no select_function/select_block/pop_instruction/raw insertion, terminators appended at the end, end_function only with no open block) whose module is a stream of instructions of the grammar, load_bytes(assemble(module)) = Ok(module) is a theorem; 'instruction of the grammar' is defined through the recogniser Spec.inst (C03: what the parser accepts); the other histories are decided by the differential only"]
     return C.finish(ctx, level="proof", checker_cmd="lake build Rspirv.Props.C06Emit (method table merge-walk, Builder invariant, canonical reload, end-to-end theorem, typed arguments) + #print axioms",
-                    rule="every generated instruction-emitting method called once in a minimal complete history with grammar-conforming arguments, plus seeded complete histories over all methods; distinct non-trivial = distinct histories",
+                    rule="every generated instruction-emitting method called once in a minimal complete history with grammar-conforming arguments, plus seeded complete histories over all methods; functions and blocks completed out of order through select_function / select_block (all permutations for 2 and 3 functions); distinct non-trivial = distinct histories",
                     trusted=["translator builder.py", "hand models + differential harness (chan/build.rs buildrt)"])
 
 
